@@ -61,7 +61,7 @@ Example C04_inv2_nonvacuous :
   exists s' own1, pdt_init 0 (LO + 15) boot = Ok (s', 0) /\ Inv2 s' LO (LO + 15) own1 (own_root (LO + 15)) /\ pdts s' 0 = LO + 15.
 Proof.
   destruct (pdt_init_spec boot LO (own_root LO) 0 (LO + 15) C04_inv_nonvacuous) as
-      (s' & err & own1 & Hrun & _ & Hp & _ & _ & _ & _ & _ & _ & _ & _ & _ & Hok & _).
+      (s' & err & own1 & Hrun & _ & Hp & _ & _ & _ & _ & _ & _ & _ & _ & _ & Hok & _ & _ & _).
   - reflexivity.
   - reflexivity.
   - reflexivity.
